@@ -1941,8 +1941,10 @@ func (c *HostClient) connsCleaner() {
 }
 
 func (c *HostClient) CloseConn(cc *clientConn) {
-	c.decConnsCount()
+	// Close the connection before freeing its MaxConns slot, so the number
+	// of open connections never exceeds MaxConns while Close is in progress.
 	cc.c.Close()
+	c.decConnsCount()
 	releaseClientConn(cc)
 }
 
